@@ -379,6 +379,51 @@ func sqlBoundaryInputs() []string {
 				add("\xe9t\xe9' " + f)
 			}
 		}
+		// (f) mirrored delimiters outside the documented sets: dollar tags with digits, underscores,
+		// non-ASCII or mixed-case letters and q-strings with arbitrary (also multi-byte) delimiters,
+		// closed by an identical copy, a case variant or a different tag
+		mbodies := []string{"abc", "", "a$b", "x' or 1=1 --", "1"}
+		mrests := []string{"", " or 1=1 -- ", " union select 1", "x"}
+		tags := []string{"a1", "a_b", "fn_2024", "q_0001", "_a", "1a", "\xc3\xa9", "a\xc3\xa9", "a-b", "a b", "A", "aB", "a$b", "abc_def_ghi_jkl", "a", "ab"}
+		for _, tg := range tags {
+			for _, b := range mbodies {
+				for _, r := range mrests {
+					add("$" + tg + "$" + b + "$" + tg + "$" + r)
+					add("select $" + tg + "$" + b + "$" + tg + "$" + r)
+					add("$" + tg + "$" + b + "$" + gen.UpperASCII(tg) + "$" + r)
+					add("$" + gen.UpperASCII(tg) + "$" + b + " $" + tg + "$" + r)
+					add("$" + tg + "$" + b + "$" + tg + "x$" + r + "$" + tg + "$")
+					add("1 $" + tg + "$" + b + " $" + gen.LowerASCII(tg) + "$ or 1=1 --")
+				}
+			}
+		}
+		delims := []string{"\xc2\xa7", "\xe2\x82\xac", "\xc3\xa9", "\x80", "\xff", "\xc2", "\xf0\x9f\x98\x80", "a", "1", "_", " ", "\t", "\x00", "'", "q", "|", "(", "["}
+		for _, d := range delims {
+			for _, pre := range []string{"q'", "Q'", "nq'", "Nq'", "NQ'", "select q'", "1 nq'"} {
+				for _, b := range []string{"abc", "", "a'b", "x' or 1=1 --", "ab"} {
+					for _, r := range mrests {
+						add(pre + d + b + d + "'" + r)
+						add(pre + d + b + d + "' " + d + "'" + r)
+					}
+				}
+			}
+		}
+		// (g) characters the Unicode-aware library helpers class with ASCII blanks, digits and letters,
+		// in front of, behind and in place of the blanks of short vectors
+		uvec := []string{"1 or 1=1", "1 union select 2", "' or 1=1 --", "1; drop table t", "select 1 from t", "1 or 1", "a b", "1 2", "x' and 'a'='a", "-1 or sleep(1)", "1"}
+		for _, lists := range [][]string{gen.UnicodeSpaces, gen.UnicodeDigits, gen.UnicodeLetters} {
+			for _, u := range lists {
+				for _, v := range uvec {
+					add(u + v)
+					add(v + u)
+					add(u + " " + v)
+					add(strings.ReplaceAll(v, " ", u))
+					add(strings.ReplaceAll(v, " ", " "+u))
+					add(strings.ReplaceAll(v, "1", u))
+					add(strings.ReplaceAll(v, "1", "1"+u))
+				}
+			}
+		}
 	})
 	return sqlBoundaryVal
 }
@@ -639,6 +684,16 @@ func TestC06(t *testing.T) {
 	c.ParRange(p, int64(len(tr)), func(w *Worker, i int64) { ruleCoverage(w.l, tr[i]); judge(w, tr[i]) })
 
 	// (2) rapid fragment grammar
+	wc := wordColliders()
+	p = c.rec.NewPart("hash_collision_identifiers", fmt.Sprintf("%d identifiers whose 32-bit hash equals that of a keyword-table word (8 hash functions, both case conventions; see C14) in 6 templates", len(wc)), false, true, "")
+	c.ParRange(p, int64(len(wc)), func(w *Worker, i int64) {
+		for _, t := range []string{"W", "1 W 2", "1 W (2)", "W(1)", "a W b", "1 W"} {
+			judge(w, strings.ReplaceAll(t, "W", wc[i].Word))
+		}
+		judge(w, "1 "+gen.UpperASCII(wc[i].Word)+" 2")
+	})
+	p = c.rec.NewPart("source_dictionary", fmt.Sprintf("%d lead constructs (closed and open literals of every kind, numbers, words, punctuation, comments) x blank? x W x blank? x every tail of 0..3 symbols over %q, for each word W (as written, upper, lower) that occurs as a literal in the SQLi source files and is not a table key", len(sqlDictLeads), sqlDictTail), false, true, "")
+	c.sqlDictInputs(p, judge)
 	p = c.rec.NewPart("rapid_fragments", "pgregory.net/rapid over the SQL fragment grammar (fragments + arbitrary bytes, drawn separators, tail-repeat)", true, false, "")
 	g := gen.SQLInput()
 	c.Rapid(p, 8, pick(25000, 600000), func(rt *rapid.T, sh int) ev.Case {
